@@ -110,6 +110,32 @@ def _gen_core(rng, tier):
     for _ in range(30 if not thorough else 300):
         rows = G.rand_alignment(rng, ["fasta"], False)
         yield Case("write", ["paml", "_", rng.choice(["auto", "0", "1", "3"]), G.xrows(rows)], nontrivial_len(len(rows[0][1])), "write-paml")
+    # 1c. names holding well-formed multi-byte UTF-8 letters (strict Phylip: at most 10 bytes - the writer cuts at 10 bytes and pads to 10 runes): no
+    # model, the round-trip predicate alone (`roundtripu`)
+    letters = ["\u00e9", "\u00fc", "\u00df", "\u4e2d", "\u03a9", "\u00f1", "\U0001d49c"]
+    for fmt in G.FORMATS:
+        for _ in range(12 if not thorough else 120):
+            w = wopts_of(fmt, rng)[0]
+            strict = w != "_" and w[0] == "1"
+            rows = G.rand_alignment(rng, [fmt], strict, L=rng.choice([1, 9, 10, 11, 59, 60, 61, 120, 125]), nrows=rng.randint(1, 4))
+            names = set()
+            urows = []
+            for i, (nm, sq) in enumerate(rows):
+                for attempt in range(1000):
+                    k = rng.choice([2, 3, 5, 8]) if strict else rng.randint(2, 14)
+                    u = "".join(rng.choice(letters) if rng.random() < 0.3 else rng.choice("abcXYZ019_") for _ in range(k))
+                    if strict:
+                        while len(u.encode("utf-8")) > 10:
+                            u = u[:-1]
+                        if rng.random() < 0.5:       # fill the field to exactly 10 bytes when possible
+                            u += "q" * (10 - len(u.encode("utf-8")))
+                    if u and u not in names and any(ord(ch) > 127 for ch in u):
+                        break
+                else:
+                    u = "\u00e9%d" % i
+                names.add(u)
+                urows.append((u.encode("utf-8").decode("latin-1"), sq))
+            yield Case("roundtripu", [fmt, w, popts_for(w), "auto", G.xrows(urows)], True, "rt-%s-utf8-names" % fmt)
     # 2. random alignments, random lengths, all formats
     N = 60 if not thorough else 600
     for fmt in G.FORMATS:
@@ -214,7 +240,7 @@ def _gen_core(rng, tier):
 # ---- shrinking: rows, then columns towards the nearest width boundary -----------------------------------
 
 def _rows_index(c):
-    return {"roundtrip": 4, "write": 3, "autort": 3, "filert": 5, "chain": 2}.get(c.op)
+    return {"roundtrip": 4, "roundtripu": 4, "write": 3, "autort": 3, "filert": 5, "chain": 2}.get(c.op)
 
 
 def shrink(c):
